@@ -3,6 +3,7 @@ package desync
 // C09: random-access reads through an index return exactly the blob's bytes.
 
 import (
+	"bytes"
 	"context"
 	"io"
 	"sync"
@@ -252,6 +253,41 @@ func verifReaderRetry() {
 
 // VerifC09_RetryAfterError: see verifReaderRetry.
 func VerifC09_RetryAfterError() { verifReaderRetry() }
+
+// VerifC09_CopyAll: the route of `desync cat`: Seek to an offset, then io.Copy (or io.CopyN)
+// from the reader into a buffer - io.Copy uses whatever the reader offers (Read, or WriteTo if
+// it has one).  Over a store whose k-th request fails or not at all: a nil result means that the
+// copied bytes are exactly the rest of the blob, and a failed store request is an error.
+func VerifC09_CopyAll() {
+	blob, idx, st := verifBlobIndex(2, 2)
+	st.useAt, st.failGetAt, st.failHasAt, st.failPutAt = true, vInt("fail-get-at"), -1, -1
+	vAssume(st.failGetAt >= -1 && st.failGetAt < 2)
+	r := NewIndexReadSeeker(idx, st)
+	off := int64(vChoose("offset", len(blob)+1))
+	_, err := r.Seek(off, io.SeekStart)
+	vAssert(err == nil, "seek inside the blob failed")
+	var out bytes.Buffer
+	var n int64
+	limited := vChoose("with-length", 2) == 1
+	want := blob[off:]
+	if limited {
+		l := int64(vChoose("length", 3))
+		if l > int64(len(want)) {
+			l = int64(len(want))
+		}
+		want = want[:l]
+		n, err = io.CopyN(&out, r, l)
+	} else {
+		n, err = io.Copy(&out, r)
+	}
+	vCover("copied")
+	if err == nil {
+		vAssert(n == int64(len(want)) && vEqBytes(out.Bytes(), want), "cat reported success but did not deliver exactly the requested bytes (store error swallowed?)")
+	}
+	if !st.observed {
+		vAssert(err == nil, "cat failed over a healthy store")
+	}
+}
 
 // VerifC09_History: Seek(start, p0); Read(l0); then one more arbitrary operation
 // (thorough: two), all offsets symbolic 64-bit values, every result checked against the blob.
